@@ -595,6 +595,73 @@ func verifH_C18_times() {
 	verifReach("end")
 }
 
+type verifReuseNode struct {
+	Kids []verifReuseNode `json:"kids"`
+	N    int32            `json:"n"`
+}
+
+type verifReuseLeaf struct {
+	N int32 `json:"n"`
+}
+
+type verifReuseHolder struct {
+	P *verifReuseLeaf `json:"p"`
+}
+
+//verif:harness id=C18 tier=quick,thorough witness=end bounds="one Generator used for two generations: (a) the same recursive struct twice, each time with a component map of the caller's own; (b) a struct as the root (through a pointer) and then another struct that holds a pointer to it, nil or set; with and without component export: after each generation every $ref names a component of that call's map and the encoding of a value validates (a nil pointer is null)"
+func verifH_C18_generator_reuse() {
+	var opts []Option
+	if verifChoose("export", 2) == 1 {
+		opts = append(opts, CreateComponentSchemas(ExportComponentSchemasOptions{ExportComponentSchemas: true}))
+	}
+	g := NewGenerator(opts...)
+	// knownAt: the assertion ("refs" / "accept") at which the known finding about reuse applies
+	check := func(what string, ref *openapi3.SchemaRef, err error, comps openapi3.Schemas, enc any, knownAt string) {
+		verifAssert(err == nil && ref != nil, "C18 generator reuse: "+what+": generation succeeds")
+		if err != nil || ref == nil {
+			return
+		}
+		root := &openapi3.SchemaRef{Ref: ref.Ref, Value: ref.Value}
+		verifKnown("C18-generator-reuse", knownAt == "refs")
+		verifAssert(verifResolveGen(root, comps, 0), "C18 generator reuse: "+what+": every $ref names a component of the map handed to this call")
+		verifKnown("C18-generator-reuse", false)
+		if root.Value != nil && verifResolveGen(root, comps, 0) {
+			verifKnown("C18-generator-reuse", knownAt == "accept")
+			verifAssert(root.Value.VisitJSON(enc) == nil, "C18 generator reuse: "+what+": the generated schema accepts the encoding")
+			verifKnown("C18-generator-reuse", false)
+		}
+	}
+	n := float64(verifNondetInt32("n"))
+	if verifChoose("scenario", 2) == 0 {
+		enc := map[string]any{"kids": []any{map[string]any{"kids": []any{}, "n": n}}, "n": 1.0}
+		s1, s2 := openapi3.Schemas{}, openapi3.Schemas{}
+		r1, e1 := g.NewSchemaRefForValue(&verifReuseNode{}, s1)
+		check("first generation", r1, e1, s1, enc, "")
+		r2, e2 := g.NewSchemaRefForValue(&verifReuseNode{}, s2)
+		// known finding: the generator's tables keep the first call's post-processed references
+		knownAt := ""
+		if len(opts) == 0 {
+			knownAt = "refs" // (with component export the second call is complete)
+		}
+		check("second generation", r2, e2, s2, enc, knownAt)
+	} else {
+		s1, s2 := openapi3.Schemas{}, openapi3.Schemas{}
+		r1, e1 := g.NewSchemaRefForValue(&verifReuseLeaf{}, s1)
+		check("leaf as root", r1, e1, s1, map[string]any{"n": n}, "")
+		var p any
+		if verifChoose("set", 2) == 1 {
+			p = map[string]any{"n": n}
+		}
+		r2, e2 := g.NewSchemaRefForValue(verifReuseHolder{}, s2)
+		knownAt := ""
+		if p == nil {
+			knownAt = "accept" // a type first generated as a root is remembered as not nullable
+		}
+		check("holder of a pointer to the leaf", r2, e2, s2, map[string]any{"p": p}, knownAt)
+	}
+	verifReach("end")
+}
+
 // struct types without a name, of different shapes, in one struct
 type verifAnonymous struct {
 	A struct {
